@@ -369,12 +369,13 @@ Proof.
   apply at_num_some in Ea as Ea'. destruct Ea' as [Hbp Hbn].
   assert (Hbs : In b (src s)) by auto.
   assert (Hmb : memb b (pend s) = true) by (apply In_memb; auto).
+  assert (Hstb : stb b = true) by (apply Hok, Hsh; auto).
   destruct (extendsb (loc s) b) eqn:Ee.
   - (* StoreOk *)
     eapply progress_chain with (e := StoreOk b).
     + exact HL.
-    + unfold sched. rewrite Eo, Erv, Ec, Ea, Ee. reflexivity.
-    + simpl. rewrite Ec, Erv, Hoe, Hmb, Ee. reflexivity.
+    + unfold sched. rewrite Eo, Erv, Ec, Ea, Ee, Hstb. reflexivity.
+    + simpl. rewrite Ec, Erv, Hoe, Hmb, Ee, Hstb. reflexivity.
     + left; eauto.
     + exact HXL.
     + unfold XR; simpl. rewrite Erv. exact I.
